@@ -307,9 +307,6 @@ fn shadow_model(asserts: &[F]) -> HashMap<String, String> {
 /// pinned system (every variable fixed), which takes milliseconds where a model search may not finish.
 /// Returns Some(model) if the candidate is a model.
 pub fn candidate_model(name: &str, kind: &'static str, hyps: &[F], extra: &F, bump: &[sx::Tid]) -> Option<HashMap<String, String>> {
-    let gv = solver::formula_vars(extra);
-    let mut asserts = if gv.is_empty() { hyps.to_vec() } else { solver::slice(hyps, &gv) };
-    asserts.push(extra.clone());
     let mut overrides: HashMap<u32, fq::U256> = HashMap::new();
     for t in bump {
         if let sx::Node::Var(v) = sx::node_of(*t) {
@@ -317,6 +314,13 @@ pub fn candidate_model(name: &str, kind: &'static str, hyps: &[F], extra: &F, bu
             overrides.insert(v, fq::add(&fq::reduce(&sh), &fq::ONE));
         }
     }
+    candidate_model_with(name, kind, hyps, extra, overrides)
+}
+/// same, with explicit replacement values for some variables (everything else keeps its shadow value)
+pub fn candidate_model_with(name: &str, kind: &'static str, hyps: &[F], extra: &F, overrides: HashMap<u32, fq::U256>) -> Option<HashMap<String, String>> {
+    let gv = solver::formula_vars(extra);
+    let mut asserts = if gv.is_empty() { hyps.to_vec() } else { solver::slice(hyps, &gv) };
+    asserts.push(extra.clone());
     if !sx::eval_with(&overrides, &asserts).iter().all(|b| *b) {
         return None;
     }
